@@ -147,18 +147,17 @@ def _t_handle_events(cx, inst, b, L, info):
     event only with time = now + CONST (CONST > 0) and a decremented retry count."""
     fa = cx.fa(b)
     ok = True
-    exit_found = False
-    for bb in L["body"]:
-        t = b.term(bb)
-        if t["k"] == "switch":
-            for y, lab in b.succ[bb]:
-                lits = fa.edge_lits.get((bb, y, lab[1]), [])
-                if any(re.fullmatch(r"lt\(arg2,BinaryHeap::peek\(arg1\.client_events\)@Some\.0\.time\)", l) for l in lits):
-                    if not _reaches_within(b, y, L["header"], L["body"]):
-                        exit_found = True
-    if not exit_found:
-        inst.violation(b.path, "future-event exit", "handle_events has no exit on `event.time > now_ms`: a re-queued event would be handled again in the same step")
+    # an event is taken off the queue only if it is due: a re-queued event (time = now + interval) is therefore
+    # not handled again in the same step
+    pops = [(l, "pop") for l, t in b.calls("BinaryHeap::pop") if l.bb in L["body"] and show(b.operand_expr(t["args"][0])) == "arg1.client_events"]
+    if not pops:
+        inst.violation(b.path, "future-event exit", "handle_events no longer pops its timer queue inside the loop (anchor)")
         ok = False
+    for l, _ in pops:
+        g, bad = dnf_holds(fa.at(l), [[r"le\(BinaryHeap::peek\(arg1\.client_events\)@Some\.0\.time,arg2\)"]])
+        if not g:
+            inst.violation(b.path, "future-event exit", "handle_events takes an event off the queue without having established `event.time <= now_ms`: a re-queued event would be handled again in the same step", at=b.span_at(l))
+            ok = False
     he = cx.R.body("Server::handle_event")
     pushes = call_sites(he, "BinaryHeap::push", r"arg1\.client_events")
     for loc, lab in pushes:
@@ -1467,6 +1466,13 @@ def run(cx):
     check_validators(cx)
     check_parser(cx)
     check_index_inventory(cx)
+    # the loop and index arguments above rest on definitions elsewhere: `packet_id::is_valid(x)` as a loop-bound
+    # guard is only as good as is_valid's own definition (x <= MASK), and the fragment-buffer indices are in range
+    # only if the buffer is created for exactly last_fragment_id + 1 fragments, computed without overflow
+    from props.C01 import inst_id_arith
+    inst_id_arith(cx, "C03.G")
+    from props.C04 import inst_sizes
+    inst_sizes(cx, "C03.S")
 
 
 SELFTEST = [
